@@ -132,6 +132,8 @@ with prelude.NoTracing():
         (("H2", "H"), ("H", "H"), -1.0, -1.0, 100),  # same sets as entries 6/7, different multisets
         (("H", "CO"), ("HCO",), 10.0, 800.0, 100),  # entry 0 with another upper bound only
         (("CO", "H"), ("HCO",), 5.0, 300.0, 100),  # entry 0 with another lower bound only
+        (("H", "H+"), ("H2+",), -1.0, -1.0, 100),  # two reactants with the same bare formula ...
+        (("H+", "H"), ("H2+",), -1.0, -1.0, 100),  # ... listed in the other order
     ]
     POOL = [Reaction(list(r), list(p), lo, hi, reaction_type=ReactionType(t)) for r, p, lo, hi, t in POOL_DESC]
 
@@ -174,7 +176,7 @@ def _real_untraced(sel, mode):
 def real_default(sel: List[int]) -> bool:
     """
     pre: len(sel) <= 3
-    pre: all(0 <= x < 14 for x in sel)
+    pre: all(0 <= x < 16 for x in sel)
     post: _ == True
     """
     return _real(sel, None)
@@ -183,7 +185,7 @@ def real_default(sel: List[int]) -> bool:
 def real_brief(sel: List[int]) -> bool:
     """
     pre: len(sel) <= 3
-    pre: all(0 <= x < 14 for x in sel)
+    pre: all(0 <= x < 16 for x in sel)
     post: _ == True
     """
     return _real(sel, "brief")
@@ -192,7 +194,7 @@ def real_brief(sel: List[int]) -> bool:
 def real_minimal(sel: List[int]) -> bool:
     """
     pre: len(sel) <= 3
-    pre: all(0 <= x < 14 for x in sel)
+    pre: all(0 <= x < 16 for x in sel)
     post: _ == True
     """
     return _real(sel, "minimal")
@@ -201,7 +203,7 @@ def real_minimal(sel: List[int]) -> bool:
 def real_short(sel: List[int]) -> bool:
     """
     pre: len(sel) <= 3
-    pre: all(0 <= x < 14 for x in sel)
+    pre: all(0 <= x < 16 for x in sel)
     post: _ == True
     """
     return _real(sel, "short")
@@ -209,7 +211,7 @@ def real_short(sel: List[int]) -> bool:
 
 def eq_laws(i: int, j: int) -> bool:
     """
-    pre: 0 <= i < 14 and 0 <= j < 14
+    pre: 0 <= i < 16 and 0 <= j < 16
     post: _ == True
     """
     i, j = prelude.concrete(i), prelude.concrete(j)
